@@ -270,6 +270,17 @@ def discharge(ob, timeout_ms=None):
                 ob.model = s.model()   # a small counter-example replays more easily
             s.pop()
     else:
+        hint = ob.meta.get('small') if ob.meta else None
+        if hint is not None and is_sym(hint):
+            # a counter-model inside the small scope is a counter-model; quantifiers are easier there
+            s.push()
+            s.add(hint)
+            if s.check() == z3.sat:
+                ob.status = 'sat'
+                ob.model = s.model()
+                ob.time = time.time() - t0
+                return ob
+            s.pop()
         text = _smt2(ob.pc, goal)
         tsec = timeout_ms // 1000
         ob.status = 'unknown'
